@@ -344,8 +344,10 @@ CORRUPTIONS = {
                ('a refused protected request recorded as served', _corrupt(lambda x: x.get('ev') == 'step' and x.get('a') == 'Req' and x.get('c', '').startswith('e') and x.get('class') == 'Refused', lambda x: x.update({'class': 'Served'})), 'GateRule'),
                ('an EVENT on an unverified connection', _corrupt(lambda x: x.get('ev') == 'probe' and x.get('c', '').startswith('e') and x.get('mode') == 'plain', lambda x: x.update(events=1)), 'OnlyVerifiedGetEvents')],
     'pairsetup': [('a stored pairing after a start message', _corrupt(lambda x: x.get('ev') == 'msg' and x.get('m', {}).get('t') == 'Start', lambda x: x.update(store=x['store'] + ['zz'])), 'StoreRule')],
-    'notify': [('one delivered EVENT removed', _corrupt(lambda x: x.get('ev') == 'act' and len(x.get('got', [])) == 1, lambda x: x.update(got=[])), 'ExactlyOnce'),
-               ('one EVENT duplicated', _corrupt(lambda x: x.get('ev') == 'act' and len(x.get('got', [])) == 1, lambda x: x.update(got=x['got'] * 2)), 'ExactlyOnce')],
+    'notify': [('one delivered EVENT removed', _corrupt(lambda x: x.get('ev') == 'act' and x.get('a') in ('Local', 'Remote') and not x.get('skipped') and len(x.get('got', [])) == 1, lambda x: x.update(got=[])), 'ExactlyOnce'),
+               ('one EVENT duplicated', _corrupt(lambda x: x.get('ev') == 'act' and x.get('a') in ('Local', 'Remote') and not x.get('skipped') and len(x.get('got', [])) == 1, lambda x: x.update(got=x['got'] * 2)), 'ExactlyOnce'),
+               ('the value of a nested change swapped', _corrupt(lambda x: x.get('ev') == 'act' and x.get('a') == 'Nested' and not x.get('skipped') and any(len(v) == 2 for v in x.get('seqs', {}).values()),
+                                                                 lambda x: x.update(seqs={k: list(reversed(v)) for k, v in x['seqs'].items()})), 'CarriesNewValue')],
     'secchan': [('an altered stream recorded without error', _corrupt(lambda x: x.get('err') and x.get('nrel') == 0 and len(x.get('wire', [])) == 1, lambda x: x.update(err=False)), 'DetectRule')],
     'framing': [('an extra frame', _corrupt(lambda x: x.get('ev') == 'enc' and x.get('n', 0) > 0, lambda x: x.update(frames=x['frames'] + [1])), 'WireFormat')],
     'connread': [('one byte too many returned', _corrupt(lambda x: x.get('ev') == 'ret' and x.get('n', 0) > 0, lambda x: x.update(ok=False)), 'ExactBytes'),
@@ -471,12 +473,11 @@ def notify_gen(run):
     t = 'INIT HInit\nNEXT HNext\n'
     edge = dedupe_prefixes(run.generate('NotifyGen', cfgtext=nt_cfg(["c1", "c2", "c3"], ["x", "y", "z"] if thorough else ["x", "z"], tail=t + 'INVARIANT EmitEdge\nVIEW EdgeView'), timeout=1800))
     nedge = len(edge)
-    if not thorough:
-        edge = sample(edge, 4000, run.seed)
+    edge = sample(edge, 60000 if thorough else 4000, run.seed)
     # second edge set: the generation view also holds what each connection last saw (hidden state of caching bugs)
     edge_seen = dedupe_prefixes(run.generate('NotifyGen', cfgtext=nt_cfg(["c1", "c2"], ["x", "y"] if thorough else ["x"], tail=t + 'INVARIANT EmitEdge\nVIEW SeenEdgeView'), timeout=1200))
     nedge += len(edge_seen)
-    edge = edge + edge_seen
+    edge = edge + sample(edge_seen, 60000 if thorough else 4000, run.seed)
     n = 4 if thorough else 3
     words = run.generate('NotifyGen', cfgtext=nt_cfg(["c1", "c2"], ["x", "z"], consts='MaxLen = %d' % n, tail=t + 'INVARIANT EmitWord\nCONSTRAINT WordBound'), timeout=1800)
     nall = len(words)
